@@ -367,7 +367,7 @@ def gen_form(rng: random.Random, cfg=None) -> Form:
             if ap:
                 r.cells["appearance"] = rng.choice(ap)
         if rng.random() < cfg["p_parameters"]:
-            prm = {"text": ["rows=3", "rows=8", "rows=5", "rows=12"], "image": ["max-pixels=640", "app=com.example.cam", "max-pixels=320 app=org.odk.draw.x"],
+            prm = {"text": ["rows=3", "rows=8", "rows=5", "rows=12"], "image": ["max-pixels=640", "app=com.example.cam", "max-pixels=320 app=org.odk.draw.x", "app=com.Example.CamPro max-pixels=100"],
                    "audio": ["quality=low", "quality=normal"],
                    "geopoint": ["capture-accuracy=5 warning-accuracy=20", "allow-mock-accuracy=true"],
                    "geotrace": ["allow-mock-accuracy=false"], "range": ["start=1 end=9 step=2", "start=0.5 end=3 step=0.5"],
